@@ -4,14 +4,14 @@ import io, os, re, json, itertools, tempfile, shutil
 from framework import coq_bs, coq_N, coq_opt, coq_list, coq_pair, coq_nat
 
 ID = 'C01'
-COQ_IMPORTS = ['C01_Model']
+COQ_IMPORTS = ['C01_Model', 'C01_Detect']
 GENERATORS = ['gen_codes', 'gen_c01_io']
 MODELLED_FUNCS = {
-    'sugar/_io/fasta.py': ['_create_bioseq', '_id_from_header', 'iter_fasta', 'append_fasta'],
-    'sugar/_io/stockholm.py': ['read_stockholm', 'write_stockholm'],
-    'sugar/_io/sjson.py': ['_SJSONEncoder.default', '_json_hook', 'read_sjson', 'write_sjson'],
-    'sugar/_io/gff.py': ['read_gff', 'write_gff'],
-    'sugar/_io/main.py': ['read', 'write'],
+    'sugar/_io/fasta.py': ['is_fasta', '_create_bioseq', '_id_from_header', 'iter_fasta', 'append_fasta'],
+    'sugar/_io/stockholm.py': ['is_stockholm', 'read_stockholm', 'write_stockholm'],
+    'sugar/_io/sjson.py': ['is_sjson', '_SJSONEncoder.default', '_json_hook', 'read_sjson', 'write_sjson'],
+    'sugar/_io/gff.py': ['is_gff', 'read_gff', 'write_gff'],
+    'sugar/_io/main.py': ['read', 'write', 'detect', 'detect_ext'],
     'sugar/core/seq.py': ['BioSeq.__init__'],
 }
 FMTS = ['fasta', 'stockholm', 'sjson', 'gff']
@@ -33,7 +33,14 @@ RULE = ('abstract baskets (1-6 sequences; lengths 0-200 biased to 0, 1, 59-61; n
         'occur in the ##FASTA line, headers, feature lines), filt, default_ftype, comments=[] on written baskets and on foreign texts; '
         'sniffer stream: ids starting with the keywords the other formats\' sniffers look for (LOCUS, ORIGIN, STOCKHOLM, gff, sugar ...), '
         'every cycle with fmt given and with content detection (path, neutral extension, StringIO, BytesIO); archive stream: '
-        'write(fname, archive=True|zip|tar|gztar|bztar|xztar) for every format, read() of the produced archive with and without fmt')
+        'write(fname, archive=True|zip|tar|gztar|bztar|xztar) for every format, read() of the produced archive with and without fmt; '
+        'detection stream: detect() and read() without fmt on the bytes written for a basket (SJSON bytes compared with the model of '
+        'json.dump) and on texts at the edges of the five sniffers (leading whitespace of 0..101 characters, keyword variants, GFF '
+        'feature lines with good / bad coordinate, strand, phase columns and 7..12 columns, SJSON comment variants, LOCUS heads, '
+        'undetectable texts) through StringIO / BytesIO / a file with a neutral extension; write-by-name stream: names with directories, '
+        'several dots, hidden files, every extension of the plugin tables and near misses (str and pathlib.Path), os.path.splitext and '
+        'detect_ext compared with the model, the file read back with content detection; relational stream: deleting comment / blank / '
+        'annotation lines from FASTA, GFF3+FASTA and Stockholm texts (up to 7 interleaved blocks) does not change what is read')
 TRUSTED = ['CPython text layer (open/TextIOWrapper universal newlines, StringIO), str.strip/lstrip/rstrip/split/upper/removeprefix, '
            're.match on IDPATTERN (modelled by a hand-written matcher, pinned to the structural form of the pattern (CPython parse tree, normalised: tools/gens/c01.py canon_regex) and compared on adversarial '
            'headers), json.dump/json.load text layer (SJSON is modelled at tree level), dict insertion order, the OS appending '
@@ -253,7 +260,7 @@ def g_stk_text(rng):
     for _ in range(rng.choice([1, 2, 2, 3, 4])):
         i = g_id(rng, adv=0.1) or 'q'
         ids.append(i)
-    nblocks = rng.choice([1, 1, 2, 3])
+    nblocks = rng.choice([1, 1, 2, 3, 4, 7])
     rows = {k: g_res(rng, 40) or 'A' for k in range(len(ids))}
     lines = ['# STOCKHOLM 1.0']
     if rng.random() < 0.3:
@@ -262,7 +269,7 @@ def g_stk_text(rng):
         lines.append('#=GS %s %s' % (ids[0] or 'x', rng.choice(['AC X1', 'DE a b c', 'OS'])))
     for b in range(nblocks):
         if b:
-            lines.append('')
+            lines += rng.choice([[''], [''], [], ['', ' ', '\t']])
         for k, i in enumerate(ids):
             r = rows[k]
             n = len(r)
@@ -589,6 +596,109 @@ def archive_cases(rng, tier):
                     cases.append({'op': 'archive', 'fmt': fmt, 'archive': a, 'fmt_given': given, 'seqs': seqs})
     return cases
 
+# ----------------------------------------------------------------------------- detection streams (sniffers, write by name)
+DET_VIAS = ['auto-sio', 'auto-bytes', 'auto-txt']
+
+
+def _pad(rng):
+    """leading whitespace around the 50-character window of is_fasta / the 100 of is_gff"""
+    n = rng.choice([0, 0, 1, 2, 10, 48, 49, 50, 51, 60, 99, 100, 101])
+    return ''.join(rng.choice(' \n\t' if rng.random() < 0.5 else '\n') for _ in range(n))
+
+
+def g_detect_text(rng):
+    """texts at the edges of the five sniffers: leading whitespace of critical lengths, keyword variants, feature lines
+    with good / bad coordinate, strand and phase columns, SJSON comment variants, undetectable texts"""
+    r = rng.random()
+    fa = '>s1 d\nACGT\nAC\n>s2\nMKV*\n'
+    if r < 0.22:
+        return _pad(rng) + rng.choice([fa, g_fasta_text(rng)])
+    if r < 0.36:
+        head = rng.choice(['# STOCKHOLM 1.0', '# STOCKHOLM', '# STOCKHOLM1.0 x', '#STOCKHOLM 1.0', '# stockholm 1.0', '# STOCKHOLM 1.0  ',
+                           ' # STOCKHOLM 1.0', '# STOCKHOL', '# STOCKHOLM 2'])
+        pre = rng.choice(['', '', '', '\n', ' '])
+        return pre + head + '\ns1 ACGU\ns2 AC-U\n//\n'
+    if r < 0.52:
+        head = rng.choice(['##gff-version 3', '##gff-version 3.1.26', '##gff-version 31', '##gff-version 2', '##gff-version  3', '##GFF-version 3',
+                           '##gff-version 3 ', '#gff-version 3', '##gff-version 3\t'])
+        return _pad(rng) + head + rng.choice(['\n', '\n#c\n', '\nchr1\t.\tgene\t1\t4\t.\t+\t.\tID=g\n']) + '##FASTA\n' + fa
+    if r < 0.74:
+        cols = [rng.choice(['chr1', 'c', '', ' x']), rng.choice(['.', 'src']), rng.choice(['gene', 'CDS', '.']),
+                rng.choice(['1', '12', ' 3 ', '+4', '-5', '0', 'x', '', '1.5', '007']), rng.choice(['4', '99', 'y', '', ' 8', '1e3']),
+                rng.choice(['.', '1.5']), rng.choice(['+', '-', '.', '?', '', '+-', '-.', '.?', 'x', '+ ', '?+']),
+                rng.choice(['.', '0', '1', '2', '', '01', '12', '.0', '3', '012', '.012', '10'])]
+        k = rng.choice([9, 9, 9, 9, 8, 7, 10, 12])
+        cols = (cols + ['ID=g1', 'extra', 'more', 'cols'])[:k]
+        line = '\t'.join(cols)
+        pre = rng.choice(['', '', '', '#c\n', '\n', ' '])
+        return pre + line + '\n##FASTA\n' + fa
+    if r < 0.84:
+        from sugar._io.sjson import COMMENT
+        c = rng.choice([COMMENT, COMMENT.upper(), COMMENT[:17], COMMENT[:16], COMMENT[:17].swapcase(), 'sugar  JSON format'])
+        pre = rng.choice(['{"_fmtcomment": "', '{"_fmtcomment":"', '', '{"a": "b", "_fmtcomment": "', ' ' * 16 + '{"_fmtcomment": "', ' ' * 17 + '{"_fmtcomment": "',
+                          ' ' * 18 + '{"_fmtcomment": "', '\n' * 34, '\n' * 35])
+        return pre + c + '", "data": [], "meta": {"_cls": "Meta"}, "_cls": "BioBasket"}'
+    if r < 0.92:
+        return rng.choice(['LOCUS', 'locus', 'Locus', 'LOCU', ' LOCUS', 'LOCUS_x', 'locusT']) + rng.choice(['', ' AB1 10 bp DNA\n', '\n']) + rng.choice(['', fa])
+    return rng.choice(['', '\n', 'no known format\n', 'ACGT\n>s1\nAC\n', ';c\n>s1\nAC\n', 'x' * 49 + '>s\nAC\n', ' ' * 49 + '>s\nAC\n', '\r\n>s1\r\nAC\r\n',
+                       '\r' * 30 + '>s1\nAC\n', '\r\n' * 25 + '>s1\nAC\n', '\r\n' * 49 + '>s1\nAC\n'])
+
+
+NAME_EXTS = ['fasta', 'fa', 'stk', 'sto', 'stockholm', 'gff', 'sjson', 'json', 'txt', 'gb', 'FASTA', 'Fa', 'fas', 'gff3', 'fast', 'asta', 'stkx', 'js',
+             'genbank', 'gbk', 'tar', 'gz', 'a', '1']
+NAME_STEMS = ['a', 'seqs', 'a.b', 'a.b.c', 'v1.2', '.hid', '..h', 'a.', 'a..', '.', '..', '...', '', 'x.fasta', 'x.stk', 'y.gff.json', 'fasta', 'stk', 'a-b_c',
+              '.fasta', '..fasta', 'a.tar']
+NAME_DIRS = ['d', 'dir.fasta', 'a.b', '.hid', 'x.stk', '...', 'sub-1', 'fa', 'p.q.json']
+
+
+def g_name(rng):
+    dirs = [rng.choice(NAME_DIRS) for _ in range(rng.choice([0, 0, 1, 1, 2]))]
+    stem = rng.choice(NAME_STEMS)
+    r = rng.random()
+    if r < 0.75:
+        base = stem + '.' + rng.choice(NAME_EXTS)
+    elif r < 0.9:
+        base = stem
+    else:
+        base = rng.choice(NAME_EXTS)
+    return '/'.join(dirs + [base])
+
+
+def name_safe(name):
+    """relative POSIX name that stays below the scratch directory"""
+    return (isinstance(name, str) and re.fullmatch(r'[A-Za-z0-9._/-]+', name) is not None
+            and all(c not in ('', '.', '..') for c in name.split('/')))
+
+
+def detect_cases(rng, tier):
+    cases = []
+    n_w, n_t, n_n = (2500, 4000, 3000) if tier == 'thorough' else (130, 260, 220)
+    for fmt in FMTS:      # every format with its plain and adversarial first ids, all transports
+        for i in ['s1', 'LOCUS', 'locus1', '##gff-version', '#', 'sugar', '>x', 'STOCKHOLM']:
+            cases.append({'op': 'detect', 'fmt': fmt, 'seqs': [[i, 'ACGT', None], ['s2', 'mkv*', 's2 desc']], 'via': rng.choice(DET_VIAS)})
+    for _ in range(n_w):
+        fmt = rng.choice(FMTS)
+        c = {'op': 'detect', 'fmt': fmt, 'seqs': g_seqs(rng, fmt=fmt), 'via': rng.choice(DET_VIAS)}
+        if fmt == 'gff' and rng.random() < 0.5:
+            c['fts'] = g_fts(rng, c['seqs'])
+        cases.append(c)
+    for _ in range(n_t):
+        t = g_detect_text(rng)
+        cases.append({'op': 'detect', 'fmt': 'fasta', 'text': t, 'via': rng.choice(['auto-bytes', 'auto-txt'] if '\r' in t else DET_VIAS)})
+    seen = set()
+    for e in NAME_EXTS:        # every extension once with a plain name
+        for nm in ['a.' + e, 'd.fasta/b.c.' + e]:
+            seen.add(nm)
+            cases.append({'op': 'byname', 'fmt': 'fasta', 'name': nm, 'seqs': [['s1', 'ACGT', None], ['s2', 'mkv*', None]], 'via': 'str'})
+    for _ in range(n_n):
+        nm = g_name(rng)
+        if not name_safe(nm) or (nm in seen and rng.random() < 0.7):
+            continue
+        seen.add(nm)
+        seqs = g_seqs(rng, hi=3) if rng.random() < 0.3 else [['s1', 'ACGT', None], ['s2', rng.choice(['mkv*', 'AC-GU']), None]]
+        cases.append({'op': 'byname', 'fmt': 'fasta', 'name': nm, 'seqs': seqs, 'via': rng.choice(['str', 'str', 'pathlib'])})
+    return cases
+
 
 def detectable(fmt, text):
     """texts for which read() without fmt is expected to find the format: the sniffers look at the first 50 / 11 / 100
@@ -623,6 +733,7 @@ def gen_cases(rng, tier):
     cases += gffopt_cases(rng, tier)
     cases += sniffer_cases(rng, tier)
     cases += archive_cases(rng, tier)
+    cases += detect_cases(rng, tier)
     for _ in range(n_cycle):
         fmt = rng.choice(FMTS)
         c = {'op': 'cycle', 'fmt': fmt, 'seqs': g_seqs(rng, fmt=fmt), 'via': rng.choice(vias)}
@@ -836,6 +947,74 @@ def impl_archive(case, d):
         raise ValueError(str(e))
     return [canon_text(fmt, t1), objs(o)]
 
+def _exc_name(e):
+    return 'ValueError' if isinstance(e, json.JSONDecodeError) else type(e).__name__
+
+
+def _attach_fts(b0, fts):
+    from sugar.core.fts import Feature, Location, FeatureList
+    fl = []
+    for i, ty, a, e, st in fts:
+        ft = Feature(ty, [Location(a, e, strand=st)])
+        ft.seqid = i
+        fl.append(ft)
+    b0.fts = FeatureList(fl)
+
+
+def impl_detect(case, d):
+    """detect() and read() without fmt on the bytes written for a basket, or on a literal text"""
+    from sugar._io import detect
+    via = case.get('via', 'auto-sio')
+
+    def det(text):
+        if via == 'auto-sio':
+            return detect(io.StringIO(text))
+        if via == 'auto-bytes':
+            return detect(io.BytesIO(text.encode('latin-1')))
+        p = d.path('det.txt')
+        with open(p, 'w', newline='', encoding='latin-1') as f:
+            f.write(text)
+        return detect(p)
+
+    def rd(text):
+        try:
+            return objs(do_read(text, None, via, d))
+        except Exception as e:
+            return {'e': _exc_name(e)}
+    if 'text' in case:
+        return [det(case['text']), rd(case['text'])]
+    b0 = mk_basket(case['seqs'])
+    if case.get('fts'):
+        _attach_fts(b0, case['fts'])
+    t1 = b0.tofmtstr(case['fmt'])
+    return [t1, det(t1), rd(t1)]
+
+
+def impl_byname(case, d):
+    """write(basket, name) with the format taken from the file name; read(name) with the format taken from the content"""
+    import pathlib
+    from sugar import read
+    from sugar._io import detect_ext
+    name = case['name']
+    if not name_safe(name):
+        return None
+    p = os.path.join(d.path('root'), name)
+    os.makedirs(os.path.dirname(p), exist_ok=True)
+    ext = os.path.splitext(p)[1].removeprefix('.')
+    fmt = detect_ext(p)
+    b0 = mk_basket(case['seqs'])
+    try:
+        b0.write(pathlib.Path(p) if case.get('via') == 'pathlib' else p)
+        with open(p, newline='') as f:
+            text = f.read()
+    except Exception as e:
+        return [ext, fmt, {'e': _exc_name(e)}]
+    try:
+        o = objs(read(p))
+    except Exception as e:
+        o = {'e': _exc_name(e)}
+    return [ext, fmt, [text, o]]
+
 
 def impl(case):
     op, fmt = case['op'], case['fmt']
@@ -847,6 +1026,10 @@ def impl(case):
             return impl_gffopt(case, d)
         if op == 'archive':
             return impl_archive(case, d)
+        if op == 'detect':
+            return impl_detect(case, d)
+        if op == 'byname':
+            return impl_byname(case, d)
         if op == 'cycle':
             b0 = mk_basket(case['seqs'])
             if case.get('fts'):
@@ -910,6 +1093,12 @@ def _opt_term(case):
 
 
 def model_term(case):
+    if case['op'] == 'detect':
+        ftl = coq_list([coq_pair(coq_bs(i), coq_bs(t), coq_nat(a), coq_nat(e), '"%s"%%byte' % st) for i, t, a, e, st in case.get('fts', [])])
+        return 'out (run_C01_det %s %s %s %s %s)' % (coq_N(1 if 'text' in case else 0), coq_N(FMTS.index(case['fmt'])),
+                                                     coq_seqs(case.get('seqs', [])), ftl, coq_bs(case.get('text', '')))
+    if case['op'] == 'byname':
+        return 'out (run_C01_byname %s %s)' % (coq_bs(case['name']), coq_seqs(case['seqs']))
     if case['op'] == 'archive':
         return 'out (%s)' % _term(3, case['fmt'], seqs=case['seqs'])
     if case['op'] == 'gffopt':
@@ -957,6 +1146,17 @@ def valid_case(case):
             elif st != ['fresh']:
                 return False
         return ok
+    if case.get('op') == 'detect':
+        if case.get('fmt') not in FMTS or case.get('via') not in DET_VIAS:
+            return False
+        if 'text' in case:
+            return isinstance(case['text'], str)
+        if not (isinstance(case.get('seqs'), list) and all(len(x) == 3 and x[1] is not None for x in case['seqs'])):
+            return False
+        return all(len(ft) == 5 and len(ft[4]) == 1 and ft[2] < ft[3] and ft[4] in '+-.?' for ft in case.get('fts', []))
+    if case.get('op') == 'byname':
+        return (name_safe(case.get('name')) and isinstance(case.get('seqs'), list)
+                and all(len(x) == 3 and x[1] is not None for x in case['seqs']))
     if case.get('op') == 'archive':
         return case.get('fmt') in FMTS and case.get('archive') in ARCHIVES and isinstance(case.get('seqs'), list) and all(len(x) == 3 and x[1] is not None for x in case['seqs'])
     if case.get('op') == 'gffopt':
@@ -979,7 +1179,73 @@ def split_model(case, m):
     return bool(m[0]), m[1]
 
 
+def agree(case, implval, modelval):
+    if case['op'] == 'detect' and 'text' in case and isinstance(modelval, list) and len(modelval) == 2 \
+            and modelval[1] == {'e': 'NotModelled'}:
+        return isinstance(implval, list) and implval[:1] == modelval[:1]        # another plugin's reader (genbank): only the detection
+    return implval == modelval
+
+
 # ----------------------------------------------------------------------------- property oracle (first principles)
+def _spec_detect_text(text):
+    """what the documentation of the formats says a file starts with; None = no opinion"""
+    t = re.sub(r'\r\n|\r', '\n', text)
+    if t[:50].strip().startswith('>'):
+        return 'fasta'
+    if t.startswith('# STOCKHOLM') and not t[:5].lower() == 'locus':
+        return 'stockholm'
+    if t[:100].strip().startswith('##gff-version 3') and not t[:50].strip().startswith('>'):
+        return 'gff'
+    return None
+
+
+def spec_detect(case, got):
+    if isinstance(got, dict):
+        return 'raised %s inside the claimed domain' % got.get('e')
+    if 'text' in case:
+        want = _spec_detect_text(case['text'])
+        if want is not None and got[0] != want:
+            return 'detected %r, the text is %s' % (got[0], want)
+        if want in ('fasta', 'gff') and not isinstance(got[1], dict):
+            exp = _expected_from_text(want, case['text'])
+            if exp is not None and [x[1] for x in got[1]] != [e['data'] for e in exp]:
+                return 'read residues %r, the text has %r' % ([x[1] for x in got[1]], [e['data'] for e in exp])
+        return None
+    t1, det, o = got
+    if det != case['fmt']:
+        return 'the %s text written by sugar is detected as %r' % (case['fmt'], det)
+    want = [[i, d.upper()] for i, d, h in case['seqs']]
+    if isinstance(o, dict) or [x[:2] for x in o] != want:
+        return 'read() with detection returned %r, the basket holds %r' % (o if isinstance(o, dict) else [x[:2] for x in o], want)
+    return None
+
+
+def _spec_ext(name):
+    base = name.rsplit('/', 1)[-1]
+    stem, dot, e = base.rpartition('.')
+    return e if dot and stem.strip('.') else ''
+
+
+def spec_byname(case, got):
+    if got is None:
+        return None
+    ext, fmt, r = got
+    want_ext = _spec_ext(case['name'])
+    if ext != want_ext:
+        return 'extension of %r is %r, expected %r' % (case['name'], ext, want_ext)
+    table = {'fasta': 'fasta', 'fa': 'fasta', 'stk': 'stockholm', 'sto': 'stockholm', 'stockholm': 'stockholm', 'gff': 'gff',
+             'sjson': 'sjson', 'json': 'sjson'}
+    if fmt != table.get(want_ext):
+        return 'write(%r) chooses format %r, the documented extension table says %r' % (case['name'], fmt, table.get(want_ext))
+    if fmt is None:
+        return None if r == {'e': 'OSError'} else 'no format for %r but write gave %r' % (case['name'], r)
+    if isinstance(r, dict):
+        return 'raised %s inside the claimed domain' % r.get('e')
+    want = [[i, d.upper()] for i, d, h in case['seqs']]
+    if isinstance(r[1], dict) or [x[:2] for x in r[1]] != want:
+        return 'read(%r) returned %r, the basket holds %r' % (case['name'], r[1] if isinstance(r[1], dict) else [x[:2] for x in r[1]], want)
+    return None
+
 
 def _fasta_records(lines):
     """FASTA as the format is defined: '>' starts a record, ';' lines are comments, everything else is residues."""
@@ -1054,6 +1320,10 @@ def spec_history(case, got):
 def spec(case, got):
     if case['op'] == 'history':
         return spec_history(case, got)
+    if case['op'] == 'detect':
+        return spec_detect(case, got)
+    if case['op'] == 'byname':
+        return spec_byname(case, got)
     if case['op'] == 'archive':
         if isinstance(got, dict):
             return 'archive=%r: raised %s inside the claimed domain' % (case['archive'], got.get('e'))
@@ -1125,6 +1395,15 @@ def _marks(case, got):
     ms = []
     if op == 'archive':
         return ['archive-%s' % case['archive'], 'fmt-given' if case.get('fmt_given') else 'fmt-detected']
+    if op == 'detect':
+        if 'text' in case:
+            return ['det-text', 'det=%s' % (got[0] if isinstance(got, list) else 'raised'), case.get('via', '')]
+        return ['det-written', case.get('via', '')] + (['features'] if case.get('fts') else [])
+    if op == 'byname':
+        if not isinstance(got, list):
+            return ['byname-skipped']
+        return ['byname', 'ext-known' if got[1] else 'ext-unknown', 'dirs' if '/' in case['name'] else 'nodirs',
+                'dots=%d' % min(case['name'].rsplit('/', 1)[-1].count('.'), 3)]
     if op == 'gffopt':
         o = case['opts']
         ms = ['opt-' + k for k in ('filt_fast', 'filt', 'default_ftype', 'comments') if o.get(k)]
@@ -1207,7 +1486,7 @@ def nontrivial(case, got):
 
 def histkey(case, got):
     ks = ['op=' + case['op'], 'fmt=' + case['fmt'], 'raised' if isinstance(got, dict) else 'returned']
-    if case['op'] in ('gffopt', 'archive'):
+    if case['op'] in ('gffopt', 'archive', 'detect', 'byname'):
         pass
     elif case['op'] == 'history':
         ks.append('steps=%d' % len(case['steps']))
@@ -1287,6 +1566,55 @@ def extra_checks(rng, tier, cov):
             if why:
                 yield {'case': case, 'impl': [t1[:300], t2[:300]], 'spec': why, 'noshrink': True, 'model': None, 'wf': True, 'evaluated': False}
     cov['relational_roundtrips'] = done
+    # comment / blank lines are removable (C01_fasta_comments_removable, C01_fasta_blank_comments_removable,
+    # C01_stk_comments_removable): the text with these lines deleted by the oracle's own line filter reads the same
+    n_rm = 0
+    for _ in range(600 if tier == 'thorough' else 90):
+        fmt = rng.choice(['fasta', 'fasta', 'stockholm', 'gff'])
+        text = {'fasta': g_fasta_text, 'stockholm': g_stk_text, 'gff': g_gff_text}[fmt](rng)
+        if '\r' in text:
+            continue
+        lines = text.split('\n')
+        if fmt == 'stockholm':
+            if rng.random() < 0.5:          # more comments, blank lines, well-formed annotations anywhere
+                for _k in range(rng.choice([1, 2, 5])):
+                    lines.insert(rng.randrange(0, len(lines)), rng.choice(['', '  ', '# c', '#', ' # x y', '#=GF DE a b', '#=GC SS_cons ..', '#=GS s1 AC X', '#x=GF']))
+            def removable(l):
+                x = l.strip()
+                if not x:
+                    return True
+                if not x.startswith('#'):
+                    return False
+                if x[:4] in ('#=GF', '#=GC'):
+                    return len(x.split()) >= 3
+                if x[:4] in ('#=GS', '#=GR'):
+                    return len(x.split()) >= 4
+                return True
+            keep = [l for l in lines if not removable(l)]
+        elif fmt == 'fasta':
+            which = rng.choice(['semi', 'both'])
+            keep = [l for l in lines if not l.startswith(';') and (which == 'semi' or l.strip())]
+        else:
+            k = [i for i, l in enumerate(lines) if l.startswith('##FASTA')]
+            if not k:
+                continue
+            keep = lines[:k[0] + 1] + [l for l in lines[k[0] + 1:] if not l.startswith(';')]
+        t1, t2 = '\n'.join(lines), '\n'.join(keep)
+
+        def rd(t):
+            try:
+                return [x[:3] for x in objs(BioBasket.fromfmtstr(t, fmt=fmt))]
+            except Exception as e:
+                return {'e': type(e).__name__}
+        r1, r2 = rd(t1), rd(t2)
+        if isinstance(r1, dict) and '#=G' in t1:
+            continue                      # annotation keys outside the domain (F20) or malformed annotation lines
+        n_rm += 1
+        if r1 != r2:
+            yield {'case': {'op': 'remove-comments', 'fmt': fmt, 'text': t1, 'stripped': t2}, 'impl': [r1, r2],
+                   'spec': 'deleting comment/blank lines changes what is read: %r vs %r' % (r1, r2), 'noshrink': True, 'model': None,
+                   'wf': True, 'evaluated': False}
+    cov['comment_removal_checks'] = n_rm
     n_edge = 0
     try:
         for name, why in _edge_checks():
@@ -1353,20 +1681,34 @@ LEVEL_TEXT = ('Machine-checked Coq theorems about an executable model of the rea
               'C01_gff_fts_roundtrip); the GFF reader options filt_fast / filt / default_ftype do not change which sequences are '
               'read (C01_gff_options_irrelevant); the FASTA reader is insensitive to wrapping at any width, blank and ";" lines inside records '
               'and before the first header, and case (C01_fasta_rewrap, C01_wrap_payload, C01_payload_insert, '
-              'C01_fasta_leading_skip); "id description" headers are re-written verbatim in any position; mode "a" equals writing '
+              'C01_fasta_leading_skip); deleting every ";" line (and every blank line) of a FASTA file, or every blank / "#" comment / '
+              'well-formed "#=G?" line of a Stockholm file, changes nothing of what is read (C01_fasta_comments_removable, '
+              'C01_fasta_blank_comments_removable, C01_stk_comments_removable, C01_stk_plain_comment_noop); "id description" headers are '
+              're-written verbatim in any position; mode "a" equals writing '
               'the concatenated basket; the id extractor is idempotent; any FASTA, GFF3+##FASTA or Stockholm text of the reader '
-              'domain reaches the fixpoint with the first written text (C01_*_reader_fixpoint); interleaved Stockholm blocks '
-              'are read as per-id concatenations (C01_stk_interleave). The model is tied to sugar by differential testing '
+              'domain reaches the fixpoint with the first written text (C01_*_reader_fixpoint); the five sniffers of /repo tried in '
+              'plugin order recognise every written text of a non-empty basket as its own format - for SJSON on the bytes json.dump '
+              'renders - so the round trip also holds when read() detects the format from the content (C01_written_detected, '
+              'C01_auto_roundtrip, C01_gff_fts_detected, C01_gff_fts_auto, C01_fasta_sniff_leading_ws, C01_jdump_no_tab); the last '
+              'suffix of the base name decides the format of write(fname) whatever other dots, suffixes and directories the name has, '
+              'names without suffix and hidden files have none (C01_basename_dir, C01_detect_ext_last_suffix, C01_ext_of_no_suffix, '
+              'C01_ext_of_hidden, C01_ext_table_ok) and writing by name round-trips (C01_byname_roundtrip); interleaved Stockholm '
+              'blocks are read as per-id concatenations, for two blocks and for any number of blocks (C01_stk_interleave, '
+              'C01_stk_interleave_n). The model is tied to sugar by differential testing '
               'through the public entry points on every run.')
-LEVEL_NOTE = ('Trusted: Coq kernel/vm_compute, translator (G_codes, G_c01_io), correspondence harness, CPython text layer, re, json. '
-              'Modelled rather than verified: BioSeq.__init__, fasta.py, stockholm.py sequence lines, sjson.py at tree level, '
+LEVEL_NOTE = ('Trusted: Coq kernel/vm_compute, translator (G_codes, G_c01_io), correspondence harness, CPython text layer, re, json.load, '
+              'os.path.splitext (modelled by hand for POSIX names and compared on generated names). '
+              'Modelled rather than verified: BioSeq.__init__, fasta.py, stockholm.py sequence lines, sjson.py at tree level plus '
+              "json.dump's rendering of these trees (compared byte for byte with tofmtstr('sjson')), "
               'gff.py sequence section plus the acceptance test / rendering of plain single-location feature lines, write()/read() '
-              'dispatch; Python str limited to Latin-1, domain printable ASCII. '
+              'dispatch, detect_ext() and detect() with the five sniffers (is_gff: int() of the coordinate columns without "_" digit '
+              'separators, otherwise outside the domain); Python str limited to Latin-1, domain printable ASCII. '
               'Domain restrictions: FASTA/GFF ids are fixed points of the id extractor without , | ; and not starting with ">"; '
               'Stockholm ids distinct, not starting with "#" or "//", rows non-empty; residues are upper-cased by BioSeq(); '
-              'GFF features: single location, seqid not ".", distinct sequence ids. '
-              'Tested only (not proved): transports (path, handle, StringIO, extension and content detection), SJSON byte level '
-              '(json text layer), SJSON/GFF feature content (C14/C02), the OS appending bytes in mode "a". '
+              'GFF features: single location, seqid not ".", distinct sequence ids; detection theorems need a non-empty basket (an '
+              'empty FASTA file is undetectable). '
+              'Tested only (not proved): transports (path, pathlib.Path, handle, StringIO, BytesIO, extension and content detection), '
+              'parsing SJSON bytes (json.load), SJSON/GFF feature content (C14/C02), the OS appending bytes in mode "a", archives. '
               'Statement coverage of the modelled functions in the quick tier is complete except: def lines (executed at import, '
               'before measurement), main.py:314-316,403-404 (tool="biopython", Bio not installed), main.py:326 (no sequence plugin '
               'lacks both read_ and iter_), sjson.py:28,30 (Strand/Defect are str/int subclasses and are serialised natively, '
